@@ -1,0 +1,44 @@
+//===- VerifHooks.h ---------------------------------------------*- C++ -*-===//
+//
+// Notification points for external runtime monitors. Everything in this file
+// is compiled only when LLBUILD_VERIF is defined; a normal build never sees it.
+//
+//===----------------------------------------------------------------------===//
+
+#ifndef LLBUILD_CORE_VERIFHOOKS_H
+#define LLBUILD_CORE_VERIFHOOKS_H
+
+#ifdef LLBUILD_VERIF
+
+namespace llbuild {
+namespace core {
+
+class BuildEngine;
+
+namespace verif {
+
+/// Points in the engine work loop at which the hook is notified. The hook is
+/// always invoked on the engine thread, with no engine lock held. It only
+/// notifies: the engine reads nothing back from it.
+enum class EnginePoint {
+  /// Top of every iteration of the work loop, before cancellation is tested.
+  LoopTop = 0,
+  /// The engine found no work and is about to block waiting for a task
+  /// completion (before the finished-task mutex is taken).
+  BeforeWait = 1,
+  /// Same, inside the drain performed when a build is cancelled.
+  CancelDrainWait = 2
+};
+
+typedef void (*EngineHookFn)(void* ctx, BuildEngine& engine, EnginePoint point);
+
+/// Install (or, with nullptr, remove) the process-wide hook.
+void setEngineHook(EngineHookFn fn, void* ctx);
+
+}
+}
+}
+
+#endif
+
+#endif
